@@ -1,4 +1,15 @@
-//! Direction A: replay of TLC-generated cases (model input + the model's expected result) into the code.
+//! Direction A: replay of TLC-generated cases into the code.  Each mode compares exactly the relation
+//! of one property (a check must not fire on code that keeps its property):
+//!   round   C01  {m, bytes}: parse(as_bytes(m) ++ suffix) = (m, rest = suffix)
+//!   enc     C02  {m, bytes}: as_bytes(m) = reference bytes
+//!   verdict C02/C06/C13/C19  {ev, expect}: the call's result = the reference result
+//!   nopanic C03  {ev}: no panic; a returned message re-serialises and measures, its arguments are valid
+//!   frame / frames C04  {ev, frame(s)}: a successful call consumes exactly the declared frame
+//!   prefix  C05  {m}: every cut of as_bytes(m) is incomplete, hint bound
+//!   junk    C06  {junk, msg, sfx}: junk ++ msg parses like msg
+//!   filter  C09  {ev, drop}: filtered parse vs unfiltered parse, decision = the model's
+//!   stable  C16  {ev}: parse -> as_bytes -> parse -> as_bytes
+//!   ids     C19  {ev, expect}: the ids of the message
 use crate::proj;
 use crate::slice;
 use crate::unproj;
@@ -9,58 +20,70 @@ use std::panic::{catch_unwind, AssertUnwindSafe};
 
 fn mismatch(out: &mut Out, what: &str, case: &J, expected: J, observed: J) {
     let class_of = |j: &J| j.get("v").and_then(|v| v.as_str()).unwrap_or("value").to_string();
-    if out.mismatches.len() < 200 {
-        out.mismatches.push(json!({"what": what, "expected_class": class_of(&expected), "observed_class": class_of(&observed), "case": case, "expected": expected, "observed": observed}));
-    } else {
-        out.mismatches.push(json!({"what": what, "expected_class": class_of(&expected), "observed_class": class_of(&observed), "case": {"omitted": true}}));
-    }
+    let keep = out.mismatches.len() < 200;
+    out.mismatches.push(json!({"what": what, "expected_class": class_of(&expected), "observed_class": class_of(&observed),
+        "case": if keep { case.clone() } else { json!({"omitted": true}) }, "expected": if keep { expected } else { J::Null }, "observed": if keep { observed } else { J::Null }}));
 }
 const SUFFIXES: [&[u8]; 5] = [&[], &[0], b"DLT\x01", &[0x10, 0, 0, 0, 1], &[0, 2, 0, 0, 2, 0, 65, 66]];
+fn hint_ok(r: &J, missing: usize) -> bool {
+    match r["hint"].as_array().and_then(|a| a.first()).and_then(|h| h.as_u64()) {
+        Some(h) => h >= 1 && h as usize <= missing,
+        None => true,
+    }
+}
+fn frame_ok(r: &J, frame: &J) -> bool {
+    let v = r["v"].as_str().unwrap_or("");
+    if !["msg", "filtered", "skipped", "invalid"].contains(&v) {
+        return true;
+    }
+    let end = frame["end"].as_i64().unwrap_or(-1);
+    let consumed = r["consumed"].as_i64().unwrap_or(-2);
+    let n = if v == "filtered" { r["n"].as_i64() } else if v == "msg" { r.get("n").and_then(|x| x.as_i64()).or(r["m"]["h"]["plen"].as_i64()) } else { None };
+    end > 0 && consumed == end && (n.is_none() || n == frame["n"].as_i64())
+}
 
 /// suite "slice"
-pub fn slice_cases(mode: &str, cases: &[J], out: &mut Out) {
+pub fn slice_cases(default_mode: &str, cases: &[J], out: &mut Out) {
     for case in cases {
+        let mode = case.get("mode").and_then(|m| m.as_str()).unwrap_or(default_mode);
         match mode {
-            // {m, bytes}: as_bytes = reference serialisation; parse(bytes ++ sfx) = (m, Len(bytes)), rest = sfx
-            "round" | "prefix" => {
+            "round" | "prefix" | "enc" => {
                 let m: Message = unproj::message(&case["m"]);
                 let sh = m.storage_header.is_some();
-                let want = unproj::bytes(&case["bytes"]);
-                let got = catch_unwind(AssertUnwindSafe(|| m.as_bytes()));
                 out.calls += 1;
-                let b = match got {
+                let b = match catch_unwind(AssertUnwindSafe(|| m.as_bytes())) {
                     Ok(b) => b,
-                    Err(_) => { mismatch(out, "as_bytes", case, json!({"v": "bytes"}), json!({"v": "panic"})); continue; }
+                    Err(_) => { if mode == "enc" { mismatch(out, "as_bytes", case, json!({"v": "bytes"}), json!({"v": "panic"})); } continue; }
                 };
-                if b != want {
-                    mismatch(out, "as_bytes", case, json!({"v": "bytes", "bytes": proj::bytes(&want)}), json!({"v": "other-bytes", "bytes": proj::bytes(&b)}));
-                }
-                if mode == "round" {
+                if mode == "enc" {
+                    let want = unproj::bytes(&case["bytes"]);
+                    if b != want {
+                        mismatch(out, "as_bytes", case, json!({"v": "bytes", "bytes": proj::bytes(&want)}), json!({"v": "other-bytes", "bytes": proj::bytes(&b)}));
+                    }
+                } else if mode == "round" {
                     for s in SUFFIXES.iter() {
-                        let mut x = want.clone();
+                        let mut x = b.clone();
                         x.extend_from_slice(s);
                         out.calls += 1;
                         let r = slice::parse_res(&x, None, sh, true);
-                        let ok = r["v"] == "msg" && r["m"] == case["m"] && r["consumed"] == json!(want.len()) && r["rest"] == proj::bytes(s);
+                        let ok = r["v"] == "msg" && r["m"] == case["m"] && r["consumed"] == json!(b.len()) && r["rest"] == proj::bytes(s);
                         if !ok {
-                            mismatch(out, "parse(bytes++suffix)", case, json!({"v": "msg", "consumed": want.len(), "m": case["m"], "rest": proj::bytes(s)}), r);
+                            mismatch(out, "parse(as_bytes(m)++suffix)", case, json!({"v": "msg", "consumed": b.len(), "m": case["m"], "rest": proj::bytes(s)}), r);
                         }
                     }
                 } else {
-                    for k in 0..want.len() {
+                    for k in 0..b.len() {
                         out.calls += 1;
-                        let r = slice::parse_res(&want[..k], None, sh, false);
-                        let hint_ok = match r["hint"].as_array().and_then(|a| a.first()).and_then(|h| h.as_u64()) { Some(h) => h >= 1 && h as usize <= want.len() - k, None => true };
-                        if r["v"] != "inc" || !hint_ok {
-                            mismatch(out, "parse(prefix)", &json!({"full": case["bytes"], "k": k, "sh": sh}), json!({"v": "inc", "max_hint": want.len() - k}), r);
+                        let r = slice::parse_res(&b[..k], None, sh, false);
+                        if r["v"] != "inc" || !hint_ok(&r, b.len() - k) {
+                            mismatch(out, "parse(prefix)", &json!({"full": proj::bytes(&b), "k": k, "sh": sh}), json!({"v": "inc", "max_hint": b.len() - k}), r);
                         }
                         if sh {
                             out.calls += 1;
-                            let c = slice::consume_res(&want[..k]);
-                            let hint_ok = match c["hint"].as_array().and_then(|a| a.first()).and_then(|h| h.as_u64()) { Some(h) => h >= 1 && h as usize <= want.len() - k, None => true };
+                            let c = slice::consume_res(&b[..k]);
                             let want_v = if k == 0 { "none" } else { "inc" };
-                            if c["v"] != want_v || !hint_ok {
-                                mismatch(out, "consume(prefix)", &json!({"full": case["bytes"], "k": k}), json!({"v": want_v, "max_hint": want.len() - k}), c);
+                            if c["v"] != want_v || !hint_ok(&c, b.len() - k) {
+                                mismatch(out, "consume(prefix)", &json!({"full": proj::bytes(&b), "k": k}), json!({"v": want_v, "max_hint": b.len() - k}), c);
                             }
                         }
                     }
@@ -68,7 +91,7 @@ pub fn slice_cases(mode: &str, cases: &[J], out: &mut Out) {
                 out.emit(json!({"case": "done"}), true);
             }
             // {ev: event-shaped input, expect: verdict}: one call, compared with the model's verdict
-            "verdict" => {
+            "verdict" | "search" => {
                 let ev = &case["ev"];
                 let got = slice::rerun(ev);
                 out.calls += 1;
@@ -80,7 +103,7 @@ pub fn slice_cases(mode: &str, cases: &[J], out: &mut Out) {
                     "skipped" => r["v"] == "skipped" && r["consumed"] == e["consumed"],
                     "found" => r["v"] == "found" && r["dropped"] == e["dropped"],
                     "ok" => r["v"] == "ok" && (e.get("val").is_none() || (r["val"] == e["val"] && r["consumed"] == e["consumed"])) && (e.get("args").is_none() || r["args"] == e["args"]),
-                    "inc" => r["v"] == "inc" && match (e.get("miss").and_then(|m| m.as_u64()), r["hint"].as_array().and_then(|a| a.first()).and_then(|h| h.as_u64())) { (Some(m), Some(h)) => h >= 1 && h <= m, _ => true },
+                    "inc" => r["v"] == "inc" && match e.get("miss").and_then(|m| m.as_u64()) { Some(m) => hint_ok(r, m as usize), None => true },
                     "any" => r["v"] == "ok" || r["v"] == "err",
                     v => r["v"] == v,
                 };
@@ -88,6 +111,142 @@ pub fn slice_cases(mode: &str, cases: &[J], out: &mut Out) {
                     mismatch(out, ev["op"].as_str().unwrap_or("?"), case, e.clone(), r.clone());
                 }
                 out.emit(json!({"case": "done"}), true);
+            }
+            "nopanic" => {
+                let ev = &case["ev"];
+                let got = slice::rerun(ev);
+                out.calls += 1;
+                if got["res"]["v"] == "panic" {
+                    mismatch(out, "panic", case, json!({"v": "no-panic"}), got["res"].clone());
+                }
+                if ev["op"] == "parse" && got["res"]["v"] == "msg" {
+                    let m = unproj::message(&got["res"]["m"]);
+                    let e = slice::reser_event(&m, true);
+                    out.calls += 4;
+                    let all_valid = e["res"]["avalid"].as_array().map(|a| a.iter().all(|x| x == &json!(true))).unwrap_or(false);
+                    if e["res"]["v"] != "ok" || !all_valid {
+                        mismatch(out, "reserialise/measure", case, json!({"v": "ok-and-valid"}), e["res"].clone());
+                    }
+                }
+                out.emit(json!({"case": "done"}), true);
+            }
+            "frame" => {
+                let got = slice::rerun(&case["ev"]);
+                out.calls += 1;
+                if !frame_ok(&got["res"], &case["frame"]) {
+                    mismatch(out, "frame", case, json!({"v": "frame", "frame": case["frame"]}), got["res"].clone());
+                }
+                out.emit(json!({"case": "done"}), true);
+            }
+            // {ev: session input, frames: [frame at every position]}: every successful step consumes the declared frame, the loop ends
+            "frames" => {
+                let got = slice::rerun(&case["ev"]);
+                let steps = got["steps"].as_array().unwrap();
+                let frames = case["frames"].as_array().unwrap();
+                out.calls += steps.len() as u64;
+                let mut ok = true;
+                for (i, s) in steps.iter().enumerate() {
+                    let pos = s["pos"].as_u64().unwrap() as usize;
+                    if pos >= frames.len() || !frame_ok(&s["res"], &frames[pos]) { ok = false; break; }
+                    let okc = ["msg", "filtered", "skipped"].contains(&s["res"]["v"].as_str().unwrap());
+                    if i + 1 < steps.len() && !okc { ok = false; break; }
+                }
+                let last_ok = steps.last().map(|s| ["msg", "filtered", "skipped"].contains(&s["res"]["v"].as_str().unwrap())).unwrap_or(false);
+                if last_ok && steps.len() < 64 { ok = false; }
+                if !ok {
+                    mismatch(out, "session-frames", case, json!({"v": "frames"}), json!({"v": "other-steps", "steps": got["steps"]}));
+                }
+                out.emit(json!({"case": "done"}), steps.len() > 1);
+            }
+            "junk" => {
+                let (junk, msg, sfx) = (unproj::bytes(&case["junk"]), unproj::bytes(&case["msg"]), unproj::bytes(&case["sfx"]));
+                let mut with = junk.clone();
+                with.extend(&msg);
+                with.extend(&sfx);
+                let mut without = msg.clone();
+                without.extend(&sfx);
+                out.calls += 2;
+                let a = slice::parse_res(&with, None, true, false);
+                let b = slice::parse_res(&without, None, true, false);
+                if b["v"] == "msg" {
+                    let ok = a["v"] == "msg" && a["m"] == b["m"] && a["consumed"].as_u64() == b["consumed"].as_u64().map(|c| c + junk.len() as u64);
+                    if !ok {
+                        mismatch(out, "junk++msg", case, json!({"v": "msg", "like": b}), a);
+                    }
+                }
+                out.emit(json!({"case": "done"}), !junk.is_empty());
+            }
+            "filter" => {
+                let ev = &case["ev"];
+                let buf = unproj::bytes(&ev["buf"]);
+                let sh = ev["sh"].as_bool().unwrap();
+                let cfg = unproj::filter_config(&ev["flt"][0]);
+                for borrowed in [true, false] {
+                    let e = slice::filter_event(&buf, &cfg, sh, borrowed);
+                    out.calls += 2;
+                    let (r, r0) = (&e["res"], &e["res0"]);
+                    let ok = if r0["v"] == "msg" {
+                        if case["drop"] == json!(true) { r["v"] == "filtered" && r["n"] == r0["m"]["h"]["plen"] && r["consumed"] == r0["consumed"] } else { r == r0 }
+                    } else { true };
+                    if !ok {
+                        mismatch(out, "filter", case, json!({"v": if case["drop"] == json!(true) { "filtered" } else { "kept" }, "unfiltered": r0}), r.clone());
+                    }
+                }
+                out.emit(json!({"case": "done"}), true);
+            }
+            "stable" => {
+                let ev = &case["ev"];
+                let buf = unproj::bytes(&ev["buf"]);
+                let sh = ev["sh"].as_bool().unwrap();
+                out.calls += 1;
+                let r = slice::parse_res(&buf, None, sh, false);
+                if r["v"] == "msg" {
+                    let m = unproj::message(&r["m"]);
+                    let e = slice::stable_event(&m, sh);
+                    out.calls += 3;
+                    let b2 = unproj::bytes(&e["b2"]);
+                    let o = if sh { 16 } else { 0 };
+                    let declared = if b2.len() >= o + 4 { o + ((b2[o + 2] as usize) << 8 | b2[o + 3] as usize) } else { 0 };
+                    if e["res2"]["v"] == "panic" || (b2.len() == declared && !(e["res2"]["v"] == "msg" && e["res2"]["m"] == r["m"] && e["res2"]["consumed"] == json!(b2.len()) && e["b3"] == e["b2"])) {
+                        mismatch(out, "stable", case, json!({"v": "stable"}), json!({"v": "unstable", "first": r, "chain": e}));
+                    }
+                }
+                out.emit(json!({"case": "done"}), r["v"] == "msg");
+            }
+            "ids" => {
+                let got = slice::rerun(&case["ev"]);
+                out.calls += 1;
+                let (r, e) = (&got["res"], &case["expect"]);
+                if e["v"] == "msg" {
+                    let ok = r["v"] == "msg" && r["m"]["h"]["ecu"] == e["m"]["h"]["ecu"] && r["m"]["x"] .get(0).map(|x| (&x["ap"], &x["ct"])) == e["m"]["x"].get(0).map(|x| (&x["ap"], &x["ct"]));
+                    if !ok {
+                        mismatch(out, "ids", case, e.clone(), r.clone());
+                    }
+                }
+                out.emit(json!({"case": "done"}), true);
+            }
+            // {ev: session input, expect: [{pos, v, consumed, n, alt}]}: the whole repeat-until-error loop against the reference (C02-strength)
+            "session" => {
+                let got = slice::rerun(&case["ev"]);
+                let steps = got["steps"].as_array().unwrap();
+                let exp = case["expect"].as_array().unwrap();
+                out.calls += steps.len() as u64;
+                let mut ok = true;
+                let mut ended_by_latitude = false;
+                for (i, s) in steps.iter().enumerate() {
+                    if i >= exp.len() { ok = false; break; }
+                    let e = &exp[i];
+                    let r = &s["res"];
+                    let exact = s["pos"] == e["pos"] && r["v"] == e["v"] && r["consumed"] == e["consumed"] && r["n"] == e["n"];
+                    let alt = s["pos"] == e["pos"] && r["v"] == e["alt"] && r["v"] == "rej" && i + 1 == steps.len();
+                    if alt && !exact { ended_by_latitude = true; }
+                    if !(exact || alt) { ok = false; break; }
+                }
+                if ok && !ended_by_latitude && steps.len() != exp.len() { ok = false; }
+                if !ok {
+                    mismatch(out, "session", case, json!({"v": "steps", "steps": case["expect"]}), json!({"v": "other-steps", "steps": got["steps"]}));
+                }
+                out.emit(json!({"case": "done"}), steps.len() > 1);
             }
             _ => panic!("unknown replay mode {}", mode),
         }
